@@ -64,7 +64,15 @@ check('C17', 'Hypothesis-generated hostile and pooled inputs; LaTeX output scann
       '\\end{lstlisting} inside code) are excluded by narrow input classes and announced as KNOWN-FINDING.',
       'DESIGN.md 5/C17')
 
+check('C14', 'Hypothesis-generated paragraphs from a tricky-token vocabulary, filtered by an independent spec-derived inertness predicate; exact-output oracle',
+      'hypothesis-sharded',
+      'Paragraphs of 1-4 lines assembled from ~190 tricky-but-inert tokens are kept when an own predicate (block-start patterns per line, '
+      'inline triggers over the paragraph, emphasis by the independent model) proves them inert; HtmlRenderer output must then be exactly '
+      '<p>escaped text</p>.',
+      'Sampling only. The predicate is conservative (discards what it cannot prove inert; discard counts are in the evidence).',
+      'DESIGN.md 5/C14')
+
 _PENDING = 'check not built yet in this revision (work in progress; technique applies, see DESIGN.md section 5)'
-for _p in ['C03', 'C04', 'C05', 'C07', 'C09', 'C10', 'C11', 'C13', 'C14',
+for _p in ['C03', 'C04', 'C05', 'C07', 'C09', 'C10', 'C11', 'C13',
            'C16', 'C19']:
     NOT_YET[_p] = _PENDING
